@@ -174,6 +174,7 @@ func init() {
 			{Name: "histories", Run: codecHistories("newick")},
 			{Name: "readerzoo", TShards: 4, Run: zooUnit("newick")},
 			{Name: "exactsizes", QShards: 2, TShards: 4, Run: exactSizeUnit("newick")},
+			{Name: "tiny", TShards: 4, Run: tinyUnit("newick")},
 			firstCallUnit(firstCodec("newick")),
 		},
 	})
